@@ -243,6 +243,10 @@ class Exec(ExprMixin, SpecMixin, DTypeMixin, Engine):
         if name in ("KeyError", "ValueError", "TypeError", "IndexError",
                     "AssertionError", "BTreesConflictError"):
             return [(s, SV("excobj", list(args), name))]
+        hv = (self.cur.ghost.get("havoc_calls") or {}) if self.cur is not None else {}
+        if name in hv and self.inline_depth == 0:
+            # a constructor / function taken in the typestate view (e.g. _TreeItems(bucket, itertype, iterargs))
+            return self.havoc_call(s, None, name, hv[name], args)
         if name in CLASS_IDS and name not in self.contracts:
             return self.instantiate(s, SV("cls", None, name), args)
         q = name if name in self.contracts or name in self.sources else None
@@ -508,6 +512,8 @@ class Exec(ExprMixin, SpecMixin, DTypeMixin, Engine):
                 s2.assume(z3.ForAll([o], z3.Implies(z3.Select(s2.ghost["RC"], o), z3.Select(newrc, o))))
                 s2.ghost["RC"] = newrc
             r = self.mk_value(s2, ret, "hret") if ret != "none" else NONE
+            s2.ghost = dict(s2.ghost)
+            s2.ghost["ret:" + name] = r
             s2.trace.append("havoc %s" % name)
             res.append((s2, r))
         if spec.get("raises", True):
